@@ -4,7 +4,9 @@
       (J_i = I_i + sum of J_c over the children c of i;  V_i = V_parent(i) − z_i·J_i) if and only if it satisfies Kirchhoff's
       current law at every non-root node with the branch currents given by Ohm's law — for every rooted tree (any parent
       function), every impedance ≠ 0 and every injection: the sweep solver and the nodal solvers have the same solutions.
-  (2) generated facts: every documented algorithm name is dispatched; the fast single-slack result routine is selected
+  (2) Gauss-Seidel (update generated from gausspf), Newton-Raphson, Iwamoto and fast-decoupled steps are zero exactly when the
+      power balance holds: all iterative solvers have the same fixed points.
+  (3) generated facts: every documented algorithm name is dispatched; the fast single-slack result routine is selected
       only when its preconditions hold (one generator row, no voltage dependent loads, no distributed slack, no bus shunt
       conductance or susceptance); the sweep solver maps buses to matrix columns by position among the non-reference buses.
 -/
@@ -13,6 +15,8 @@ import Mathlib.Algebra.Field.Defs
 import Mathlib.Algebra.BigOperators.Group.List.Basic
 import Mathlib.Tactic.FieldSimp
 import Mathlib.Tactic.Ring
+import Mathlib.Algebra.Star.Basic
+import Mathlib.LinearAlgebra.Matrix.NonsingularInverse
 
 namespace PPVerif.Props.C06
 open PPVerif.Generated.C06
@@ -76,6 +80,58 @@ theorem C06_nodal_solution_is_sweep_fixed_point (n : Nat) (p : Nat → Nat) (z V
 /-- non-vacuity: a feeder 0 — 1 — 2 with a lateral 1 — 3 -/
 example : children 3 (fun c => if c = 1 then 0 else 1) 1 = [2, 3] := by decide
 end sweep
+
+/-! ### Gauss-Seidel, Newton-Raphson, fast-decoupled: a zero update is exactly a solved power balance -/
+section fixedpoints
+variable {K : Type} [Field K]
+
+/-- **Gauss-Seidel**: the generated update leaves the voltage of bus k unchanged iff the nodal current balance
+    (Ybus V)_k = conj(S_k / V_k) holds at k -/
+theorem C06_gs_fixed_point (inj yv ykk vk : K) (hd : ykk ≠ 0) : gsStep inj yv ykk vk = vk ↔ yv = inj := by
+  unfold gsStep
+  constructor
+  · intro h
+    have h0 : (inj - yv) / ykk = 0 := by
+      have := congrArg (fun t => t - vk) h
+      simpa using this
+    rcases div_eq_zero_iff.1 h0 with h1 | h1
+    · exact (sub_eq_zero.1 h1).symm
+    · exact absurd h1 hd
+  · intro h; rw [h]; simp
+
+/-- the current balance with inj = conj(S / V) is the power balance V · conj((Ybus V)_k) = S that gausspf, fdpf and newtonpf
+    all test for convergence -/
+theorem C06_current_balance_is_power_balance [StarRing K] (S V yv : K) (hV : V ≠ 0) (h : yv = star (S / V)) :
+    V * star yv - S = 0 := by
+  rw [h, star_star]; field_simp; ring
+
+/-- **Newton-Raphson / fast-decoupled**: a step obtained by solving a linear system (Jacobian, B' or B'') with the
+    mismatch as right-hand side is zero iff the mismatch is zero — for every invertible iteration matrix: the choice of the
+    matrix (full Jacobian, Iwamoto's damped step, BX / XB approximations) changes the path, not the set of fixed points -/
+theorem C06_linear_step_fixed_point {n : Type} [Fintype n] [DecidableEq n] (A : Matrix n n K) [Invertible A] (F : n → K) :
+    (-(⅟A).mulVec F) = 0 ↔ F = 0 := by
+  constructor
+  · intro h
+    have h1 : (⅟A).mulVec F = 0 := by simpa using h
+    have := congrArg (fun v => A.mulVec v) h1
+    simpa [Matrix.mulVec_mulVec, mul_invOf_self] using this
+  · intro h; simp [h]
+
+/-- a damped step (Iwamoto multiplier μ ≠ 0) has the same fixed points -/
+theorem C06_damped_step_fixed_point {n : Type} [Fintype n] [DecidableEq n] (A : Matrix n n K) [Invertible A] (F : n → K)
+    (mu : K) (hmu : mu ≠ 0) : mu • (-(⅟A).mulVec F) = 0 ↔ F = 0 := by
+  rw [smul_eq_zero]
+  constructor
+  · rintro (h | h)
+    · exact absurd h hmu
+    · exact (C06_linear_step_fixed_point A F).1 h
+  · intro h; exact Or.inr ((C06_linear_step_fixed_point A F).2 h)
+
+theorem C06_generated_iteration_shapes :
+    gsMismatchIsPowerBalance = true ∧
+    fdSteps = ["dVa=-Bp_solver.solve(P)", "Va[pvpq]=Va[pvpq]+dVa", "dVm=-Bpp_solver.solve(Q)", "Vm[pq]=Vm[pq]+dVm",
+               "mis=(V*conj(Ybus*V)-Sbus)/Vm", "P=mis[pvpq].real", "Q=mis[pq].imag"] := by decide
+end fixedpoints
 
 /-! ### generated facts -/
 def documentedAlgorithms : List String := ["nr", "iwamoto_nr", "bfsw", "gs", "fdbx", "fdxb"]
